@@ -10,9 +10,9 @@ from vlib.common import ShardResult, rng_for
 PROPERTY = "C14"
 LEVEL = "exploration"
 RULE = (
-    "A generated module on disk places 5-9 functions at module level, as methods of classes and nested classes, as "
-    "static methods, inside factory functions (one or two levels deep) and behind functools.wraps decorators (module "
-    "level and methods); a history (<= 10 quick / <= 16 thorough) of {activate a probe by name, activate by absolute "
+    "A generated module on disk places 5-11 functions at module level, as methods of classes and nested classes, as "
+    "static methods, inside factory functions (one or two levels deep, with and without captured free variables), behind "
+    "functools.wraps decorators (module level and methods), and as a method sharing its name with a module-level function; a history (<= 10 quick / <= 16 thorough) of {activate a probe by name, activate by absolute "
     "reference, deactivate any active probe (nested or out of order), call a function, resolve a reference} runs against "
     "it.  At every 'resolve' (and after every step for the functions touched so far) the monitor requires "
     "select(refstring(fn) + ' > v').element.name is the function itself (the undecorated one for decorated functions) "
@@ -26,14 +26,16 @@ ASSUMPTIONS = [
     "For a decorated function the reference denotes the function written in the 'def' (docs: the absolute notation bypasses decorators).",
     "Generated modules are imported by name from a scratch directory on sys.path.",
 ]
+MECH_SHADOW = "reference-shadowed-by-same-named-method"
 MECHANISMS = {
+    MECH_SHADOW: "when a module-level function f and a method (or nested function) also called f live in one file, probing the method makes '/module/f' resolve to the method from then on: compiling the variant exec's a synthetic module whose top-level def f is picked up by codefind's audit hook and re-registered under the path (file, 'f')",
     "ambiguous-reference-while-probed": "resolving '/m/f' while a probe is active on f raises 'Reference is ambiguous': the compiled variant's helper function shares the swapped-in code object and is not marked __ptera_discard__",
 }
 MIN_DECIDING = {"quick": 5000, "thorough": 100000}
 SHARD_TIMEOUT = {"quick": 900, "thorough": 7200}
 
 
-def gen_module(rnd, name):
+def gen_module(rnd, name, collide=None):
     """Returns (source, [fn descriptors]).  descriptor: dict(access=python expr from module ns to the
     probed callable, target=expr giving the function that must be resolved, by_name=selector prefix, k=const)."""
     lines = [
@@ -87,6 +89,17 @@ def gen_module(rnd, name):
         b, c = body(4, False)
         lines += ["def factory():", "    def inner(x):"] + b + ["    return inner", "", "inner_fn = factory()", ""]
         descs.append({"call": "inner_fn({x})", "target": "inner_fn", "by_name": "inner_fn", "k": c, "kind": "local-function"})
+    if rnd.random() < 0.6:
+        # a closure that really captures a free variable
+        k[0] += 1
+        c = 100 * k[0]
+        lines += ["def factory3():", f"    kfree = {c}", "    def clos(x):", "        v = x + kfree", "        return v", "    return clos", "", "clos_fn = factory3()", ""]
+        descs.append({"call": "clos_fn({x})", "target": "clos_fn", "by_name": "clos_fn", "k": c, "kind": "closure-with-free-variable"})
+    if (rnd.random() < 0.5) if collide is None else collide:
+        # a method that shares its name with a module-level function
+        b, c = body(4, True)
+        lines += ["class K2:", "    def top0(self, x):"] + b + [""]
+        descs.append({"call": "K2().top0({x})", "target": "K2.top0", "by_name": "K2.top0", "k": c, "kind": "method-named-like-a-function"})
     if rnd.random() < 0.4:
         b, c = body(8, False)
         lines += ["def factory2():", "    def mid():", "        def deep(x):"] + b + ["        return deep", "    return mid()", "", "deep_fn = factory2()", ""]
@@ -236,6 +249,10 @@ def run_history(mod, descs, ops, res):
 
 def classify(problems):
     t = " ".join(str(p["problem"]) for p in problems)
+    # the shadowed reference either resolves to the method, or a probe made through it lands on
+    # the method (counters / code / stream of top0 and K2.top0 are swapped)
+    if "top0" in t and all("top0" in str(p["problem"]) for p in problems):
+        return MECH_SHADOW
     if "is ambiguous" in t and all(p.get("active_on_it", 1) >= 1 for p in problems if "ambiguous" in str(p["problem"])):
         return "ambiguous-reference-while-probed"
     return None
@@ -247,6 +264,8 @@ def run_shard(spec):
     mech = "ambiguous-reference-while-probed"
     s0, cnt = spec["range"]
     scratch = spec["scratch"]
+    finding_stream = spec.get("finding") == MECH_SHADOW
+    collide = True if finding_stream else (False if MECH_SHADOW in known else None)
     if scratch not in sys.path:
         sys.path.insert(0, scratch)
     mod = descs = src = None
@@ -254,7 +273,7 @@ def run_shard(spec):
         rnd = rng_for("C14", spec["seed"], i)
         if mod is None or n % 10 == 0:
             name = f"c14m_{spec['seed']}_{i}"
-            src, descs = gen_module(rng_for("C14mod", spec["seed"], i), name)
+            src, descs = gen_module(rng_for("C14mod", spec["seed"], i), name, collide)
             with open(os.path.join(scratch, name + ".py"), "w") as f:
                 f.write(src)
             importlib.invalidate_caches()
@@ -266,7 +285,7 @@ def run_shard(spec):
         if problems:
             mod = None
             m = classify(problems)
-            if m and m in known:
+            if m and m in known and (m != MECH_SHADOW or finding_stream):
                 res.finding(m, {"case": case, "problems": problems[:2]})
             else:
                 res.violation(case, problems[:3])
@@ -283,7 +302,10 @@ def run_shard(spec):
 
 def plan(tier, seed, known):
     n, shards, maxlen = (3000, 12, 10) if tier == "quick" else (60000, 32, 16)
-    return [{"range": [s, c], "maxlen": maxlen} for s, c in common.split_range(n, shards)]
+    specs = [{"range": [s, c], "maxlen": maxlen} for s, c in common.split_range(n, shards)]
+    if MECH_SHADOW in known:
+        specs += [{"range": [10**6 + s, c], "maxlen": maxlen, "finding": MECH_SHADOW} for s, c in common.split_range(320, 4)]
+    return specs
 
 
 def replay(case):
